@@ -490,10 +490,10 @@ impl Run {
                 "reward_collector_address": match n.get("collector") { Some(Value::String(s)) => json!(self.ad(s)), _ => cur["reward_collector_address"].clone() },
             });
         }
-        if let Some(ms) = up.get("monitors").and_then(|x| x.as_array()) {
+        if let Some(ms) = up.pointer("/monitorsec/list").and_then(|x| x.as_array()) {
             msg["monitors"] = json!(ms.iter().map(|m| self.ad(m.as_str().unwrap_or(""))).collect::<Vec<_>>());
         }
-        if let Some(bp) = up.get("batchPeriod") {
+        if let Some(bp) = up.pointer("/period/secs") {
             msg["batch_period"] = bp.clone();
         }
         json!({"update_config": msg})
